@@ -281,4 +281,80 @@ Definition kf (c : case) : N :=
 
 Definition verdict (c : case) : N :=
   mkverdict (wf c) (obs_beq (model c) (c_obs c)) (spec c (c_obs c)) (kf c).
+
+(* ================= candidates and depending packages loaded from /var/db/pkg =================
+   Production code never builds a flag set by hand: vdb.GetInstalledPackageList reads every
+   installed package from its VDB directory (setAtom) and the depending package's flags are that
+   package's own loaded flag set (installedResolverData.ParentUseFlags).  An extended case says,
+   for the candidate and for the depending package, whether the harness built the flags directly
+   (None: the case is as above) or wrote a VDB entry and let the real loader read it. *)
+Record vdbent := MkVdb {
+  e_eff : option (list bytes);              (* file IUSE_EFFECTIVE: flags; None = no such file *)
+  e_iuse : option (list (N * bytes));       (* file IUSE: prefix (0 none, 1 "+", 2 "-") and flag *)
+  e_use : option (list bytes) }.            (* file USE: the enabled flags *)
+
+Record xcase := MkX {
+  x_case : case;       (* with a VDB candidate p_iuse/p_use of its package are unused (empty), with a
+                          VDB depending package c_parent is unused (empty): the entries replace them *)
+  x_cand : option vdbent;
+  x_par : option vdbent }.
+
+(* the files as the harness writes them: words separated by one space, a final newline *)
+Definition nl : ascii := nb 10.
+Definition file_of (words : list bytes) : bytes := join sp words ++ [nl].
+Definition eff_file (e : vdbent) : option bytes := option_map file_of (e_eff e).
+Definition iuse_file (e : vdbent) : option bytes := option_map (fun l => file_of (map iuse_tok l)) (e_iuse e).
+Definition use_file (e : vdbent) : option bytes := option_map file_of (e_use e).
+Definition slot_file (p : pkg) : bytes :=
+  p_slot p ++ match p_subslot p with Some x => nb 47 :: x | None => [] end ++ [nl].
+
+(* -- the model (from the code): setAtom on the entry -- *)
+Definition ent_flags (e : vdbent) : flagset := vdb_flags (eff_file e) (iuse_file e) (use_file e).
+(* the loaded package: name-version parsed without slot, then SetSlotAndSubslot(cut SLOT, "") *)
+Definition parse_vdb_pkg (p : pkg) : parsed :=
+  raw_parse Relop_none true (basever_of (p_ver p)) (suffix_of (p_ver p)) (revision_of (p_ver p)) false
+            (vdb_slot (slot_file p)) [] [] [].
+
+Definition xmodel (x : xcase) : obs :=
+  let c := x_case x in
+  let pa := parse_atom (c_atom c) in
+  let pp := match x_cand x with None => parse_pkg (c_pkg c) | Some _ => parse_vdb_pkg (c_pkg c) end in
+  match make_da pa with
+  | Diverge => OTimeout
+  | Val d =>
+    let f := match x_cand x with None => pkg_flags (c_pkg c) | Some e => ent_flags e end in
+    let ctx := match x_par x with None => c_parent c | Some e => get_map (ent_flags e) end in
+    OOk (da_compver d) (da_slot d) (da_subslot d) (pa_compver pp) (pa_slot pp) (pa_subslot pp)
+        (version_and_slot_match d (pa_compver pp) (pa_slot pp))
+        (flags_match (da_usedeps d) f ctx)
+        (filter_one d (pa_compver pp) (pa_slot pp) f ctx)
+  end.
+
+(* -- the specification (from PMS): what the entry says about the installed package -- *)
+Definition ent_pms (e : vdbent) : list (bytes * bool) := installed_flags (e_iuse e) (e_eff e) (e_use e).
+(* the installed package as the unextended predicate sees it: its IUSE_EFFECTIVE is what the entry
+   declares (prefixes play no part), its USE what the entry records *)
+Definition pms_pkg (p : pkg) (e : vdbent) : pkg :=
+  MkPkg (p_ver p) (p_slot p) (p_subslot p)
+        (map (fun f => (0%N, f)) (declared_flags (e_iuse e) (e_eff e)))
+        (match e_use e with Some l => l | None => [] end).
+Definition pms_case (x : xcase) : case :=
+  let c := x_case x in
+  MkCase (c_atom c)
+         (match x_cand x with Some e => pms_pkg (c_pkg c) e | None => c_pkg c end)
+         (match x_par x with Some e => ent_pms e | None => c_parent c end)
+         (c_obs c).
+
+Definition xspec (x : xcase) (o : obs) : bool := spec (pms_case x) o.
+Definition xkf (x : xcase) : N := kf (pms_case x).
+
+Definition wf_ent (e : vdbent) : bool :=
+  match e_eff e with Some l => forallb wf_flagname l | None => true end
+  && match e_iuse e with Some l => forallb (fun t => (fst t <=? 2)%N && wf_flagname (snd t)) l | None => true end
+  && match e_use e with Some l => forallb wf_flagname l | None => true end.
+Definition wf_oent (e : option vdbent) : bool := match e with Some e => wf_ent e | None => true end.
+Definition xwf (x : xcase) : bool := wf (x_case x) && wf_oent (x_cand x) && wf_oent (x_par x).
+
+Definition xverdict (x : xcase) : N :=
+  mkverdict (xwf x) (obs_beq (xmodel x) (c_obs (x_case x))) (xspec x (c_obs (x_case x))) (xkf x).
 End C13.
